@@ -402,6 +402,10 @@ def session_events(driver, cfg, script, send_fault=None, lose=None, both=False, 
                     s.get(rb.oid_str(MIB[0]))
                 elif op == "get_many":
                     s.get_many([rb.oid_str(MIB[0]), rb.oid_str(MIB[1])])
+                elif op == "get_many_one":
+                    s.get_many([rb.oid_str(MIB[2])])
+                elif op == "get_many_none":
+                    s.get_many([])
                 elif op in ("getnext", "getbulk") and lose is not None:
                     it = iter(s.getnext(base) if op == "getnext" else s.getbulk(base))
                     fails = 0
@@ -439,6 +443,10 @@ def session_events(driver, cfg, script, send_fault=None, lose=None, both=False, 
                     await s.get(rb.oid_str(MIB[0]))
                 elif op == "get_many":
                     await s.get_many([rb.oid_str(MIB[0]), rb.oid_str(MIB[1])])
+                elif op == "get_many_one":
+                    await s.get_many([rb.oid_str(MIB[2])])
+                elif op == "get_many_none":
+                    await s.get_many([])
                 elif op in ("getnext", "getbulk") and lose is not None:
                     it = (s.getnext(base) if op == "getnext" else s.getbulk(base)).__aiter__()
                     fails = 0
@@ -545,7 +553,7 @@ def run(tier):
     common.run_cases(rec, work_bfs, bfs, chunk=1)
     common.run_cases(rec, work_misc, [0], chunk=1)
     sess = []
-    scripts = [["get", "get_many"], ["getnext"], ["getbulk"], ["fetch"], ["get", "getbulk", "get"], ["refresh", "get"]]
+    scripts = [["get", "get_many"], ["getnext"], ["getbulk"], ["fetch"], ["get", "getbulk", "get"], ["refresh", "get"], ["get", "get_many_one", "get_many", "get_many_one"]]
     for driver in ("sync", "async"):
         for cfg in (Cfg("v1"), Cfg("v2c"), Cfg("v3"), Cfg("v3", auth=2, priv=2)):
             for sc in scripts:
